@@ -7,3 +7,15 @@ package bcrypt
 //@   implements tq.Handler.Handle
 //@   requires a.loggerProvider != nil
 //@   requires[C14] len(a.hash) == 0 ==> a.getSecret != nil
+
+// Type invariant of a usable bcrypt handler (what Handle requires): a logger, and a keychain
+// whenever no hash is configured. The factory must establish it (C14: a hash-less user must
+// not leave a nil keychain behind).
+
+//@ func New(l loggerProvider, s getSecret) (res *Authenticator)
+//@   ensures[C14] res != nil && res.loggerProvider == l && res.getSecret == s
+
+//@ func (a Authenticator) New(username string, options map[string]string) (h tq.Handler, err error)
+//@   requires a.loggerProvider != nil && a.getSecret != nil
+//@   ensures[C14] err == nil ==> (h != nil && typeOf(h) == *Authenticator && h.(*Authenticator).loggerProvider != nil)
+//@   ensures[C14] err == nil ==> (len(h.(*Authenticator).hash) == 0 ==> h.(*Authenticator).getSecret != nil)
